@@ -451,7 +451,6 @@ func Iterate(val Value, it Iteratee) (int, error) {
 		}
 		return ln, nil
 	case reflect.Map:
-		keys := r.MapKeys()
 		ln := r.Len()
 		l := Loop{
 			ln == 1,
@@ -462,9 +461,11 @@ func Iterate(val Value, it Iteratee) (int, error) {
 			true,
 			ln,
 		}
-		for i, k := range keys {
-			v := r.MapIndex(k)
-			brk, err := it(k.Interface(), v.Interface(), l)
+		// (MapRange rather than MapKeys and MapIndex: an entry whose key is NaN
+		// cannot be looked up)
+		iter := r.MapRange()
+		for i := 0; iter.Next(); i++ {
+			brk, err := it(iter.Key().Interface(), iter.Value().Interface(), l)
 			if brk || err != nil {
 				return i + 1, err
 			}
